@@ -87,6 +87,7 @@ Definition zero_s2s : str2str := mks2s None None.
 
 Definition s2s_load (st : str2str) (kk vv : list bytes) : str2str * res unit :=
   if negb (len kk =? len vv) then (st, Err 1)
+  else if existsb (fun k => max_uint32 <? len k) kk then (st, Err 2)   (* "key too large": before the value store is replaced *)
   else
     let store := match s2s_store st with Some s => s | None => new_store end in
     let '(store', r) := store_load store vv in
